@@ -11,11 +11,11 @@ STRUCT_ATTRS = {"shape", "ndim", "dtype", "size", "itemsize", "nbytes"}
 LINEAR_ATTRS = {"T", "real", "imag", "mT"}
 LINEAR_METHODS = {
     "reshape", "ravel", "flatten", "transpose", "swapaxes", "squeeze", "sum", "mean", "conj", "conjugate", "astype",
-    "cumsum", "diagonal", "trace", "take", "repeat", "copy", "view",
+    "cumsum", "diagonal", "trace", "take", "repeat", "copy", "view", "__getitem__",
 }
 SEQ_LINEAR = {"concatenate", "stack", "hstack", "vstack", "row_stack", "column_stack", "dstack", "array", "asarray", "block"}
 STRUCT_BUILTINS = {"len", "range", "isinstance", "type", "id", "hasattr", "callable", "slice", "str", "repr", "bool.__dummy__"}
-PASS_BUILTINS = {"tuple", "list", "zip", "enumerate", "reversed", "iter", "sorted.__dummy__", "sum", "map"}
+PASS_BUILTINS = {"tuple", "list", "zip", "enumerate", "reversed", "iter", "sorted.__dummy__", "sum"}
 
 
 def join(*xs):
@@ -168,6 +168,15 @@ class Lin:
             if self.of(t.idx) != "Z":
                 self.blame(t, "the (co)tangent used as an index")
                 return "N"
+            ob = t.obj
+            if t.idx.op == "const" and type(t.idx.value) is int and ob.op == "iterelem" and ob.src.op == "call" and ob.src.fn.op == "ref" and not ob.src.kw and not ob.src.get("dstar") and not any(a.op == "star" for a in ob.src.args):
+                # an element of zip(A, B, ..) / enumerate(A): component k is an element of the k-th iterable (an index)
+                q = ob.src.fn.ref.qual
+                k = t.idx.value
+                if q == "builtins.zip" and 0 <= k < len(ob.src.args):
+                    return self.of(ob.src.args[k])
+                if q == "builtins.enumerate" and len(ob.src.args) == 1 and k in (0, 1):
+                    return "Z" if k == 0 else self.of(ob.src.args[0])
             return self.of(t.obj)
         if o in ("tuple", "list", "set"):
             return join(*[self.of(e) for e in t.elts]) if t.elts else "Z"
@@ -295,6 +304,12 @@ class Lin:
                     return "Z"
                 if b in PASS_BUILTINS:
                     return join(*args) if args else "Z"
+                if b == "map" and len(t.args) >= 2 and not t.kw and not t.get("dstar"):
+                    # map(F, S, ..) is (F(e, ..) for e in S ..): decided as that call on the elements
+                    from ..terms import T
+
+                    el = [T("iterelem", t.node, t.mod, src=a) for a in t.args[1:]]
+                    return self.of(T("call", t.node, t.mod, fn=t.args[0], args=el, kw={}, dstar=[]))
                 if b in ("float", "int", "complex", "abs", "max", "min", "bool"):
                     self.blame(t, f"builtin {b}() of the (co)tangent")
                     return "N"
